@@ -86,6 +86,11 @@ def run_stop(cfg):
     specs = cfg["stop"]
     m, th, obs = K.build(cfg)
     conds = [make_cond(s) for s in specs]
+    if cfg.get("preclear"):
+        # the model carried other conditions before (opposite modes), which were cleared: nothing of them may survive
+        for s in specs:
+            m.addStoppingCondition(make_cond((s[0], s[1], s[2], s[3], s[4])), "or" if s[3] == "and" else "and")
+        m.clearStoppingConditions()
     for c, s in zip(conds, specs):
         m.addStoppingCondition(c, s[3])
     spy = Spy(conds, always=False)
@@ -138,6 +143,9 @@ def run_ttp(cfg):
     m, th, obs = K.build(cfg)
     obs.cap = 10 ** 9
     conds = [make_cond(s) for s in specs]
+    if cfg.get("preclear"):
+        for s in specs:
+            m.addStoppingCondition(make_cond(s), "or")       # the calculator clears these and installs its own, and-combined
     spy = Spy(conds, always=True)
     ev = [{"e": "init", "conds": [{"or": False, "gt": bool(s[1])} for s in specs], "holds0": [False] * len(specs)}]
     err = None
@@ -223,6 +231,8 @@ def gen_configs(rng, tier):
                  calls=[(100.0, 0.02)] if rng.random() < 0.7 else [(40.0, 0.02), (60.0, 0.02)])
         if i % 3 == 0:
             c["rerun"] = [(10.0, 0.05)]       # after reset(): too short for the "late" thresholds
+        if i % 4 == 1:
+            c["preclear"] = True
         cfgs.append(c)
     # non-monotonic monitored quantities (nucleation burst, density peak): met early, fall back below the threshold later,
     # and-combined with a condition that is met late / or-combined with one never met
@@ -238,7 +248,7 @@ def gen_configs(rng, tier):
                 stop = [(k, True, thr, "and", None), ("vf", True, late_vf, mode2 if mode2 == "and" else "and", None)]
                 if mode2 == "or":
                     stop.append(("ravg", True, 1.0, "or", None))      # never met
-                cfgs.append(dict(burst, tag="stop-burst-%s-%s" % (k, mode2), stop=stop, iter="euler", calls=[(1.5, 0.02)]))
+                cfgs.append(dict(burst, tag="stop-burst-%s-%s" % (k, mode2), stop=stop, iter="euler", calls=[(1.5, 0.02)], preclear=(mode2 == "and")))
     return cfgs, ref
 
 
@@ -251,7 +261,7 @@ def gen_ttp(rng, tier, ref):
         if i % 2:
             stop.append(("nuc", True, float(max(ref["nuc"]) * 100 + 1), "and", None))   # never met: runs to maxTime
         cfgs.append(dict(phases=[dict(name="beta", gamma=0.05)], D=1e-16, cap=10 ** 9, tag="ttp-%d" % i, stop=stop, se=1e-5,
-                         ttp=(990.0, 1010.0, 2 + i % 2, 60.0), calls=[]))
+                         ttp=(990.0, 1010.0, 2 + i % 2, 60.0), calls=[], preclear=(i % 2 == 0)))
     # a sweep that ends above the temperature at which the volume-fraction threshold can be reached: met at the first
     # temperature, not met at the last (the calculator re-uses the same condition objects after model.reset())
     for i, it in enumerate(("first-met-last-not",)):
